@@ -69,13 +69,12 @@ def find_reads(expr, datanames, idxname, cur, fname):
 def mentions(node, names):
     return any(isinstance(n, ast.Name) and n.id in names for n in ast.walk(node))
 
-def analyse(fn, datanames, idxnames=('indx', 'idx', 'index'), start=None, stop_at_loop=True):
+def analyse(fn, datanames, idxnames=('indx', 'idx', 'index'), start=None, body=None, idxname=None):
     """returns (fields, end) with fields = [(target, kind, width, offset, bo)]"""
     fname = fn.name
     cur = start
-    idxname = None
     fields = []
-    for st in fn.body:
+    for st in (fn.body if body is None else body):
         if isinstance(st, ast.Expr) and isinstance(st.value, ast.Constant):
             continue
         if isinstance(st, ast.Expr) and isinstance(st.value, ast.Call) and ast.unparse(st.value.func).startswith('logging.'):
@@ -93,22 +92,32 @@ def analyse(fn, datanames, idxnames=('indx', 'idx', 'index'), start=None, stop_a
                 if tgt.id != idxname:
                     raise TranslatorError('%s: two index variables' % fname)
                 if isinstance(st, ast.AugAssign):
+                    if cur is None:
+                        continue       # index not yet anchored (reads of another buffer come first)
                     k = lin(val, idxname, cur)
-                    if not isinstance(st.op, ast.Add) or k is None or cur is None:
+                    if not isinstance(st.op, ast.Add):
                         raise TranslatorError('%s: unsupported index update %s' % (fname, ast.unparse(st)))
+                    if k is None:
+                        if fields:
+                            break      # data-dependent step: the straight-line part ends here
+                        cur = None
+                        continue
                     cur += k
                 else:
-                    k = lin(val, idxname, cur)
+                    k = lin(val, idxname, cur) if (cur is not None or not mentions(val, (idxname,))) else None
                     if k is None:
                         if fields:
                             break      # index becomes data dependent: the straight-line part ends here
-                        raise TranslatorError('%s: unsupported index update %s' % (fname, ast.unparse(st)))
+                        cur = None
+                        continue
                     cur = k
                 continue
             if val is not None and mentions(val, datanames):
                 if idxname is None and cur is None:
                     # reads with literal offsets only
                     pass
+                if cur is None:
+                    raise TranslatorError('%s: read of %s before the index is anchored' % (fname, ast.unparse(val)))
                 rs = find_reads(val, datanames, idxname, cur, fname)
                 if len(rs) != 1 or not isinstance(tgt, ast.Name):
                     # DATA used in another way (e.g. passed on, len(DATA)): end of the straight-line part
@@ -121,12 +130,13 @@ def analyse(fn, datanames, idxnames=('indx', 'idx', 'index'), start=None, stop_a
                 fields.append((tgt.id, kind, width, off, bo))
                 continue
             continue      # pure assignment
+        if isinstance(st, (ast.If, ast.For, ast.While, ast.With, ast.Try)):
+            names = tuple(datanames) + ((idxname,) if idxname else tuple(idxnames))
+            if not mentions(st, names):
+                continue   # compound statement that touches neither the data nor the index
+            break
         if fields:
-            break          # first compound statement after the reads: straight-line part ends
-        if isinstance(st, (ast.If, ast.For, ast.While, ast.Return, ast.Raise, ast.With, ast.Try)):
-            if mentions(st, datanames):
-                break
-            continue
+            break          # anything else after the reads: straight-line part ends
     return fields, cur
 
 def to_layout(fields, fname, base=0):
@@ -172,7 +182,13 @@ READERS = [
     ('d5_palette', 'drxtract/vwsc/dir5cparser.py', 'D5VwscChannelParser', 'read_palette_channel_info', ('frameData',), 24),
     ('d5_sprite', 'drxtract/vwsc/dir5cparser.py', 'D5VwscChannelParser', 'read_sprite_channel_info', ('frameData',), 24),
 ]
-EXTRA_READERS = []
+EXTRA_READERS = [
+    ('stxt_run', 'drxtract/stxt/stxt.py', None, 'parse_stxt_data', ('fdata',), 20),
+    ('fmap_header', 'drxtract/fmap/fmap.py', None, 'parse_fmap_data', ('header_data',), 28),
+    ('fmap_meta', 'drxtract/fmap/fmap.py', None, 'parse_fmap_data', ('header_data',), 8),
+]
+# readers that are the body of the k-th loop (0-based, among the loops reading the data variable) of the function
+LOOP_BODIES = {'stxt_run': 0, 'fmap_meta': 0}
 
 def generate():
     out = [HEADER % 'the straight-line field readers listed in tie/gen_layouts.py READERS',
@@ -182,7 +198,15 @@ def generate():
         if path not in trees:
             trees[path] = parse(path)
         f = find_function(trees[path], cls, fn)
-        fields, end = analyse(f, datanames)
+        if coqname in LOOP_BODIES:
+            loops = [st for st in f.body if isinstance(st, (ast.For, ast.While)) and mentions(st, datanames)]
+            k = LOOP_BODIES[coqname]
+            if len(loops) <= k:
+                raise TranslatorError('%s.%s: loop number %d reading %s not found' % (cls, fn, k, datanames))
+            idxn = next((n.id for n in ast.walk(loops[k]) if isinstance(n, ast.Name) and n.id in ('indx', 'idx', 'index')), None)
+            fields, end = analyse(f, datanames, start=0, body=loops[k].body, idxname=idxn)
+        else:
+            fields, end = analyse(f, datanames)
         if not fields:
             raise TranslatorError('%s.%s: no field reads recognised' % (cls, fn))
         lay, names, pos = to_layout(fields, fn)
